@@ -3,6 +3,8 @@
 import os, subprocess, tempfile, shutil, sys
 V = os.path.dirname(os.path.dirname(os.path.abspath(__file__)))
 M = [
+ ("c02_no_ptol", "csep/utils/calc.py", "    dist = p - a0 + p_tol + a0_tol\n", "    dist = p - a0 + a0_tol\n"),
+ ("c02_below_on_quotient_only", "csep/utils/calc.py", "    idx[numpy.asarray(dist < 0)] = -1\n", ""),
  ("c03_addat_firstwins", "csep/core/catalogs.py", "        idx = self._get_spatial_idx_or_raise()\n        numpy.add.at(event_counts, idx, 1)\n", "        idx = self._get_spatial_idx_or_raise()\n        event_counts[idx] += 1\n"),
  ("c03_no_minus1_check", "csep/core/catalogs.py", "                if mag_idx[idx] == -1:\n                    raise ValueError(\"at least one magnitude value outside of the valid region.\")\n", ""),
  ("c04_ge_is_gt", "csep/core/catalogs.py", "                     '>=': operator.ge,", "                     '>=': operator.gt,"),
@@ -33,7 +35,6 @@ M = [
  ("c18_quantile_str", "csep/models.py", "            'quantile': self.quantile,", "            'quantile': str(self.quantile),"),
  ("c19_ndk_latlon_swap", "csep/utils/readers.py", "                   record['hypo_lat'],\n                   record['hypo_lng'],", "                   record['hypo_lng'],\n                   record['hypo_lat'],"),
  ("c19_zmap_depth_mag_swap", "csep/utils/readers.py", "            line[ColumnIndex.Depth.value],\n            line[ColumnIndex.Magnitude.value],", "            line[ColumnIndex.Magnitude.value],\n            line[ColumnIndex.Depth.value],"),
- ("c20_probability_firstwins", "csep/core/catalogs.py", "        spatial_idx = self._get_spatial_idx_or_raise()\n", "        spatial_idx = self._get_spatial_idx_or_raise()[::1]\n"),
  ("c11_flag_polarity_loader", "csep/core/forecasts.py", "        poly_mask = all_poly_mask[sorted_idx]", "        poly_mask = 1 - all_poly_mask[sorted_idx]"),
  ("c08_n2_minus_n1", "csep/core/poisson_evaluations.py", "    information_gain = (numpy.sum(X1 - X2) - (N1 - N2)) / N\n\n    # Compute variance of (X1-X2) using Equation (18)  of Rhoades et al. 2011\n    first_term = (numpy.sum(numpy.power((X1 - X2), 2))) / (N - 1)", "    information_gain = (numpy.sum(X1 - X2) - (N2 - N1)) / N\n\n    # Compute variance of (X1-X2) using Equation (18)  of Rhoades et al. 2011\n    first_term = (numpy.sum(numpy.power((X1 - X2), 2))) / (N - 1)"),
 ]
